@@ -12,7 +12,11 @@ Inductive oitem :=
 | OA (job : string) (cands : list chain) (reqs : list (string * hw)) (n : nat) (chosen : list string)
      (valid_obs : list string) (alloc_obs : bool)
 | ON (job : string) (new : status) (fls : list free_level)
-| OSnap (s : sstate).
+| OSnap (s : sstate)
+| OQuiet (locked : bool) (nlock nparked nlive : nat).
+  (* shape of the protocol state at a quiescent point of the real run: wait_queue's lock held?, tasks queued for the
+     lock, tasks parked in the Condition, live _process_target tasks.  Sched/Wake.v: in a quiescent state nobody holds or
+     queues for the lock (C12_quiescent_lock_free) and every ungranted request is parked (C12_no_lost_wakeup_partial) *)
 Inductive ccase := CHist (items : list oitem).
 
 Definition locs_eqb := list_eqb (list_eqb (pair_eqb String.eqb String.eqb)).
@@ -37,6 +41,7 @@ Fixpoint replay (st : sstate) (items : list oitem) : bool :=
   | ON job new fls :: r =>
       match notify st job new fls with Ok s => replay s r | Err _ => false end
   | OSnap s :: r => state_eqb st s && replay st r
+  | OQuiet locked nlock nparked nlive :: r => negb locked && Nat.eqb nlock 0 && Nat.eqb nparked nlive && replay st r
   end.
 
 Definition check_case (c : ccase) : bool := match c with CHist items => replay init items end.
